@@ -161,3 +161,17 @@ CHECKS["C05"] = {
          "what": "7 @defer families consumed for one payload then cancelled (single-response transports): no task left blocked"},
     ],
 }
+
+CHECKS["C16"] = {
+    "prepare": probes.prepare,
+    "assumptions": ["ast definitions are built directly by the harness (not through the SDL parser); arbitrary schemas are outside the bound"],
+    "harnesses": [
+        {"pkg": "graphql/introspection", "harness": "Harness_C16_fields", "reach": ["c16.fields"], "workers": 8, "quick": {"sample_models": 30, "sample_every": 13},
+         "what": "Type.Fields: 2 fields x 2 arguments, each with symbolic @deprecated (+/- reason), description, default value, includeDeprecated"},
+        {"pkg": "graphql/introspection", "harness": "Harness_C16_inputsEnums", "reach": ["c16.inputs"], "workers": 8, "quick": {"sample_models": 30, "sample_every": 13},
+         "what": "InputFields, EnumValues(includeDeprecated), Schema.Directives/directiveFromDef with symbolic @deprecated on each element"},
+        {"probe": "core", "harness": "Harness_C16_disabled", "setup": "Setup_C16_disabled", "reach": ["c16.enabled", "c16.disabled"], "workers": 6, "sched": "first",
+         "configs_quick": ["single"], "configs_thorough": ["single", "follow", "funcsyn"], "quick": {"sample_models": 20},
+         "what": "generated __schema/__type resolvers behind aliases, fragments, inline fragments and @include variables with DisableIntrospection symbolic"},
+    ],
+}
